@@ -46,6 +46,7 @@ func TestSweep(t *testing.T) {
 		Oracle.One(t, env, rec, "sweep", &Case{S: e.S.Name, D: e.D.Name, Xs: vals(Bounds(e)), Fix: 5}) // the source was the destination of a conversion before, converted through a window cut then
 		Oracle.One(t, env, rec, "sweep", &Case{S: e.S.Name, D: e.D.Name, Xs: vals(Bounds(e)), Fix: 6}) // source two frames longer than the destination
 		Oracle.One(t, env, rec, "sweep", &Case{S: e.S.Name, D: e.D.Name, Xs: vals(Bounds(e)), Fix: 7}) // destination two frames longer than the source
+		Oracle.One(t, env, rec, "sweep", &Case{S: e.S.Name, D: e.D.Name, Xs: vals(Bounds(e)), Fix: 10}) // output in pieces: two adjacent destination windows, the source goes on beyond the first
 		Oracle.One(t, env, rec, "sweep", &Case{S: e.S.Name, D: e.D.Name, Xs: vals(Bounds(e)), Fix: 8}) // the destination buffer is shared with every other instantiation of this destination type
 		Oracle.One(t, env, rec, "sweep", &Case{S: e.S.Name, D: e.D.Name, Xs: vals(Bounds(e)), Fix: 9}) // the source was converted into a shorter destination before
 		if e.S.Bits == 64 {
